@@ -27,7 +27,7 @@ theorem C09_invisible (D : Desc) (s : St) (k : Nat) (h : disabledByIndex D.group
 theorem C09_update_skips (D : Desc) (s : St) (h : disabledByIndex D.groups s.index = true) :
     (updateCommand D s).1.buf = s.buf ∧
     ((updateCommand D s).1.implicitWriteFlag = true → s.implicitWriteFlag = true) := by
-  unfold updateCommand
+  unfold updateCommand updateLane updateAdvance
   simp only [chkUb_ctl]
   rw [C09_invisible D _ _ h]
   simp [prepareSearchCommand]
